@@ -37,7 +37,7 @@ func accSX(e error) SX {
 	for _, p := range errors.GetAllSafeDetails(e) {
 		det := make([]string, len(p.SafeDetails))
 		for i, s := range p.SafeDetails {
-			det[i] = strings.ReplaceAll(maskVF(s), unkSuffix, "")
+			det[i] = strings.ReplaceAll(s, unkSuffix, "")
 		}
 		sd = append(sd, L(Str(p.OriginalTypeName), L(Str(strings.TrimSuffix(p.ErrorTypeMark.FamilyName, unkSuffix)), Str(p.ErrorTypeMark.Extension)), Strs(det)))
 	}
